@@ -311,6 +311,11 @@ pub fn record(args: &Args) {
 	// distinguishable keys: short, long (heap-allocated SmallString), multi-byte
 	let keys: Vec<String> = (0..nkeys)
 		.map(|i| match i % 4 {
+			// keys whose code-point order and UTF-16 order differ (U+E000..U+FFFF versus supplementary planes)
+			_ if i == 5 => "\u{ffff}".to_string(),
+			_ if i == 6 => "\u{10000}".to_string(),
+			_ if i == 9 => "\u{e000}z".to_string(),
+			_ if i == 10 => "\u{1f600}a".to_string(),
 			0 => format!("k{i}"),
 			1 => format!("key-with-a-long-name-{i:04}"),
 			2 => format!("\u{e9}{i}\u{10000}"),
